@@ -60,7 +60,7 @@ for log in sorted(glob.glob(res_dir + '/*.log')):
     meta = {
         'id': ident,
         'breaks_property': prop,
-        'written_by': 'independent sub-agent given only the property text and a scratch worktree (round %s)' % rnd[1],
+        'written_by': 'independent sub-agent given only the property text and a scratch worktree (round %s)' % re.match(r'r(\d+)', rnd).group(1),
         'summary': first[:400],
         'ported': ('patch.diff was ported by hand to the tree after fix d5ee576 (the statements it edits were rewritten by that fix); patch.as-written.diff is the sub-agent\'s original against 4763285' if ported else None),
         'needs_to_manifest': needs,
